@@ -84,7 +84,22 @@ partial def patSexp : Pat → Sexp
   | .refCond g y n => mk "refcond" [ofNat g, patSexp y, patSexp n]
   | .exprCond c y n => mk "exprcond" [patSexp c, patSexp y, patSexp n]
 
-/-- `(c05 topat <rtl> <rnode>)` → the specification pattern of the n-ary tree (must be what
+/-- remove the bump-along markers (driver glue) -/
+partial def stripBump : RNode → RNode
+  | .alt o cs => .alt o (cs.map stripBump)
+  | .cat o cs => .cat o ((cs.filter (fun c => match c with | .bump => false | _ => true)).map stripBump)
+  | .loop z lo hi b => .loop z lo hi (stripBump b)
+  | .cap g b => .cap g (stripBump b)
+  | .look bh ng b => .look bh ng (stripBump b)
+  | .atomic b => .atomic (stripBump b)
+  | .refCond g y n => .refCond g (stripBump y) (stripBump n)
+  | .exprCond c y n => .exprCond (stripBump c) (stripBump y) (stripBump n)
+  | n => n
+
+/-- `(c05 bump <rnode>)` → `(ok 0|1 <site 0|1>)`: the engine's final left-to-right tree is what `placeBump` makes of
+    the same tree without its markers; `site` = a marker is placed
+
+    `(c05 topat <rtl> <rnode>)` → the specification pattern of the n-ary tree (must be what
     `gen.FromGoTree` prints for the same engine tree)
 
     `(c05 reduce <on 0|1> <rtl> <rnode>)` → `(ok <ll-agrees 0|1> <rnode'>)`: `reduceAll` (all cases of
@@ -93,6 +108,12 @@ partial def patSexp : Pat → Sexp
     `(c05 step <on> <rtl> <pa> <rnode>)` → `(ok <rnode'>)`: one `reduce()` of a node with reduced children -/
 def handleC05Rw (args : List Sexp) : Option String :=
   match args with
+  | [.atom "bump", n] =>
+    match rnode? n with
+    | some n =>
+      let n0 := stripBump n
+      some (toString (Sexp.list [.atom "ok", ofBool (RNode.same (placeBump false true n0) n), ofBool (bumpSite false true n0).isSome]))
+    | none => some "(bad-args)"
   | [.atom "topat", rtl, n] =>
     match rtl.bool?, rnode? n with
     | some rtl, some n => some (toString (patSexp (toPat rtl n)))
